@@ -342,6 +342,10 @@ func runJobs(c *core.Ctx, env *hsreal.Env, jobs []*job, st *stats) {
 				to = 8 * time.Second
 			}
 			r, broke := execute(env, j, to)
+			if broke == "" && j.Relay.Act != "none" && !r.Acted {
+				// the deadline passed before the frame was even sent (loaded machine): once more, patiently
+				r, broke = execute(env, j, 8*time.Second)
+			}
 			if broke != "" {
 				return nil, nil, broke
 			}
